@@ -355,7 +355,7 @@ class _AESCCM:
         record("ccm", dir="enc", key=items_of(self.key), nonce=items_of(nonce), data=items_of(data), aad=items_of(aad),
                tag_len=self.tag_length)
         ct = enc("AES-CCM", self.key, list(items_of(nonce)), data)
-        tag = uf("AES-CCM-TAG", [self.key, nonce, aad, data], self.tag_length)
+        tag = uf("AES-CCM-TAG", [self.key, nonce, aad, data, [self.tag_length]], self.tag_length)
         return SymBytes.make(ct + tag)
 
     def decrypt(self, nonce, data, aad):
@@ -368,7 +368,7 @@ class _AESCCM:
                tag_len=self.tag_length)
         ct, tag = d[: len(d) - self.tag_length], d[len(d) - self.tag_length:]
         pt = dec("AES-CCM", self.key, list(items_of(nonce)), ct)
-        exp = uf("AES-CCM-TAG", [self.key, nonce, aad, pt], self.tag_length)
+        exp = uf("AES-CCM-TAG", [self.key, nonce, aad, pt, [self.tag_length]], self.tag_length)
         ok = _eq_term(exp, tag)
         if not bool(ok):
             raise _InvalidTag()
